@@ -559,6 +559,21 @@ where
             });
             let out = guarded(|| run(&case, ctx));
             watch.leave(slot);
+            if std::env::var_os("VP_DEBUG_MEM").is_some() {
+                // debugging aid: report cases during which the peak resident set grew a lot
+                let hwm = std::fs::read_to_string("/proc/self/status")
+                    .ok()
+                    .and_then(|s| {
+                        s.lines()
+                            .find(|l| l.starts_with("VmHWM:"))
+                            .and_then(|l| l.split_whitespace().nth(1).and_then(|v| v.parse::<u64>().ok()))
+                    })
+                    .unwrap_or(0);
+                if hwm > 1_500_000 {
+                    eprintln!("HEAVY peak_rss_kb={hwm} case={js}");
+                    _ = std::fs::write("/proc/self/clear_refs", "5");
+                }
+            }
             let counting = !failed.load(Ordering::SeqCst);
             let out = match out {
                 Ok(o) => o,
